@@ -549,6 +549,54 @@ def print_digests(modname: str, tier: str, base_seed: int, n: int) -> int:
     return 0
 
 
+def _digest_chunk(args) -> dict:
+    modname, seeds, tier = args
+    faulthandler.dump_traceback_later(900, exit=True)
+    try:
+        mod = _load(modname)
+        return {str(s): run_seed(mod, s, tier)[1]["digest"] for s in seeds}
+    finally:
+        faulthandler.cancel_dump_traceback_later()
+
+
+def pool_digests(modname: str, tier: str, base_seed: int, n: int, jobs: int, reverse: bool) -> dict:
+    """digests of n seeds executed in a worker pool: `jobs` processes, chunks of 25 seeds, optionally in reversed order, so
+    that what ran earlier in the same process differs between two sweeps"""
+    seeds = seeds_for(base_seed, n)
+    if reverse:
+        seeds = seeds[::-1]
+    chunks = [seeds[i : i + 25] for i in range(0, len(seeds), 25)]
+    out: dict = {}
+    with cf.ProcessPoolExecutor(max_workers=jobs, mp_context=mp.get_context("fork")) as ex:
+        for d in ex.map(_digest_chunk, [(modname, c, tier) for c in chunks]):
+            out.update(d)
+    return out
+
+
+def detsweep(modname: str, tier: str, base_seed: int, n: int) -> int:
+    """large-sample determinism proof: n seeds in a 16-process pool in seed order in this interpreter, and the same seeds in a
+    5-process pool in reversed order in a fresh interpreter under another PYTHONHASHSEED; every event-log digest must agree"""
+    t0 = time.time()
+    d1 = pool_digests(modname, tier, base_seed, n, 16, False)
+    env = dict(os.environ, PYTHONHASHSEED="4242", VERIF_REEXEC="1")
+    out = subprocess.run(
+        [sys.executable, os.path.join(VERIF, "check.py"), _load(modname).PROP, "--pool-digests", str(n), "--tier", tier, "--seed", str(base_seed),
+         "--module", modname, "--jobs", "5"],
+        env=env, capture_output=True, text=True, timeout=3600,
+    )
+    if out.returncode != 0:
+        print(out.stdout[-2000:], out.stderr[-2000:])
+        print(f"HARNESS-ERROR fresh interpreter failed {modname}")
+        return 2
+    d2 = json.loads(out.stdout.strip().splitlines()[-1])
+    bad = [s for s in d1 if d2.get(s) != d1[s]]
+    if bad or len(d1) != n or len(d2) != n:
+        print(f"HARNESS-ERROR nondeterminism {modname}: {len(bad)} of {n} digests differ between sweeps, seeds={bad[:8]}")
+        return 2
+    print(f"detsweep ok: {modname} {n} seeds, 16 workers forward == 5 workers reversed under another hash seed ({time.time() - t0:.0f}s)")
+    return 0
+
+
 def main(argv: list[str], registry: dict[str, str]) -> int:
     ap = argparse.ArgumentParser()
     ap.add_argument("prop")
@@ -560,6 +608,8 @@ def main(argv: list[str], registry: dict[str, str]) -> int:
     ap.add_argument("--jobs", type=int, default=int(os.environ.get("VERIF_JOBS", "16")))
     ap.add_argument("--selftest", action="store_true")
     ap.add_argument("--digests", type=int, default=0)
+    ap.add_argument("--pool-digests", type=int, default=0)
+    ap.add_argument("--detsweep", type=int, default=0, help="large-sample determinism sweep over N seeds")
     ap.add_argument("--module", default=None)
     ap.add_argument("--one", type=int, default=None, help="run a single absolute seed verbosely")
     a = ap.parse_args(argv)
@@ -578,6 +628,11 @@ def main(argv: list[str], registry: dict[str, str]) -> int:
         modname = a.module or registry[a.prop]
         if a.digests:
             return print_digests(modname, a.tier, base_seed, a.digests)
+        if a.pool_digests:
+            print(json.dumps(pool_digests(modname, a.tier, base_seed, a.pool_digests, a.jobs, True)))
+            return 0
+        if a.detsweep:
+            return detsweep(modname, a.tier, base_seed, a.detsweep)
         if a.selftest:
             return selftest(modname, a.tier, base_seed)
         if a.one is not None:
